@@ -99,7 +99,84 @@ def run_modes(req):
     return {"obs": obs, "stats": {"mode_checks": nchecks}}
 
 
+def run_selftest_race(req):
+    """Thread A starts an extraction while the switch is in the auto-detect state and is paused (by its own
+    trace function) inside the first-use self-test; thread B calls set_trickery_enabled(val) meanwhile.  Once both
+    calls have returned, the mode in force must be the one B set: an explicit setting made after the
+    auto-detection started must not be overwritten by the self-test's verdict."""
+    import sys
+    val = req["val"]
+    g = ref_gen()
+    next(g)
+    g2 = ref_gen()
+    next(g2)
+    inside, resume, b_returned = threading.Event(), threading.Event(), threading.Event()
+    box = {}
+
+    def tracer(frame, event, arg):
+        if (event == "call" and frame.f_code.co_name == "_contexts_active_by_trickery" and not inside.is_set()
+                and frame.f_globals.get("__name__", "").startswith("stackscope._lowlevel")):
+            f = frame
+            while f is not None and f.f_code.co_name != "_check_trickery_available":
+                f = f.f_back
+            if f is not None:
+                inside.set()
+                resume.wait(30)
+        return None
+
+    def thread_a():
+        sys.settrace(tracer)
+        try:
+            with warnings.catch_warnings():
+                warnings.simplefilter("ignore")
+                box["a"] = extract(g)
+        except BaseException as ex:
+            box["a_exc"] = repr(ex)
+        finally:
+            sys.settrace(None)
+
+    def thread_b():
+        try:
+            set_trickery_enabled(val)
+        except BaseException as ex:
+            box["b_exc"] = repr(ex)
+        b_returned.set()
+
+    set_trickery_enabled(None)      # auto-detect: the next extraction runs the self-test
+    ta = threading.Thread(target=thread_a, daemon=True)
+    tb = threading.Thread(target=thread_b, daemon=True)
+    obs = []
+    try:
+        ta.start()
+        if not inside.wait(30):
+            resume.set()
+            ta.join(30)
+            return {"harness_error": "thread A never entered the self-test (has the auto-detection moved?)"}
+        tb.start()
+        # B either returns at once or blocks until A is done; both are fine - we only give it a moment to try
+        b_returned.wait(0.3)
+        resume.set()
+        ta.join(60)
+        tb.join(60)
+        if ta.is_alive() or tb.is_alive():
+            return {"harness_error": "threads did not finish"}
+        if "a_exc" in box or "b_exc" in box:
+            obs.append({"kind": "raised", "a": box.get("a_exc"), "b": box.get("b_exc")})
+        got = mode_in_force(g2)
+        want = "referents" if val is False else "trickery"
+        if got != want:
+            obs.append({"kind": "explicit_setting_overwritten_by_self_test", "set": val, "mode_in_force": got})
+    finally:
+        resume.set()
+        set_trickery_enabled(None)
+        g.close()
+        g2.close()
+    return {"obs": obs, "stats": {"mode_checks": 1}}
+
+
 def handle(req):
+    if req["op"] == "modes.selftest_race":
+        return run_selftest_race(req)
     if req["op"] == "modes.run":
         return run_modes(req)
     raise AssertionError(req["op"])
